@@ -31,12 +31,28 @@ class NotModelled(AnalysisError):
 class PyRaise(Exception):
     """a Python exception raised inside the modelled code"""
 
-    def __init__(self, name, args=(), node=None, obj=None):
+    # origin: 'raise'   an explicit raise/assert statement of the analysed code
+    #         'builtin' Python's own semantics of a modelled operation on model data (dict lookup, list index, int('x'), next())
+    #         'eval'    produced by the evaluator's object model (missing attribute/method, argument binding ...): a MODEL GAP
+    REPORTABLE_BUILTIN = ("KeyError", "IndexError", "ValueError", "StopIteration", "ZeroDivisionError", "OverflowError",
+                          "struct.error", "FileNotFoundError", "UnicodeDecodeError")
+
+    def __init__(self, name, args=(), node=None, obj=None, origin="builtin"):
         Exception.__init__(self, name)
         self.name = name
         self.args_ = tuple(args)
         self.node = node
         self.obj = obj
+        self.origin = origin
+
+    @property
+    def reportable(self):
+        """may a rule report this exception as behaviour of the analysed code?  Only an explicit raise, or a
+        KeyError/IndexError/ValueError-like outcome of a modelled operation; AttributeError/TypeError/NameError and
+        everything the evaluator's object model produced are model gaps (exit 2)."""
+        if self.origin == "raise":
+            return True
+        return self.origin == "builtin" and self.name in self.REPORTABLE_BUILTIN
 
     def __str__(self):
         return "%s%s" % (self.name, self.args_ if self.args_ else "")
@@ -134,9 +150,14 @@ class Pt:
 
 
 class Obj:
+    tuple_fields = None  # field names of a typing.NamedTuple instance
+
     def __init__(self, cls, **attrs):
         self.cls = cls
         self.attrs = dict(attrs)
+
+    def as_tuple(self):
+        return tuple(self.attrs[f] for f in self.tuple_fields)
 
     def __repr__(self):
         return "<%s %s>" % (self.cls.name if self.cls else "obj", self.attrs.get("name", hex(id(self))[-4:]))
@@ -392,7 +413,7 @@ class Interp:
                 env.vars[p] = v
             for k, v in kwargs.items():
                 if k not in params or k in env.vars:
-                    raise PyRaise("TypeError", ("bad keyword %s for %s" % (k, fn.qualname),), n)
+                    raise PyRaise("TypeError", ("bad keyword %s for %s" % (k, fn.qualname),), n, origin="eval")
                 env.vars[k] = v
             defaults = a.defaults
             for p, d in zip(params[len(params) - len(defaults):], defaults):
@@ -400,7 +421,7 @@ class Interp:
                     env.vars[p] = self.eval(d, fn.env)
             for p in params:
                 if p not in env.vars:
-                    raise PyRaise("TypeError", ("missing argument %s for %s" % (p, fn.qualname),), n)
+                    raise PyRaise("TypeError", ("missing argument %s for %s" % (p, fn.qualname),), n, origin="eval")
             if isinstance(n, ast.Lambda):
                 return self.eval(n.body, env)
             is_gen = getattr(n, "_is_gen", None)
@@ -426,6 +447,10 @@ class Interp:
         if ov is not None:
             return self._native(ov, (self, cls) + tuple(args), kwargs, node)
         o = Obj(cls)
+        kind = self._record_kind(cls)
+        if kind is not None and not any("__init__" in c.methods for c in cls.mro()):
+            self._record_init(o, cls, kind, list(args), dict(kwargs), node)
+            return o
         init = self.getattr(o, "__init__", node, missing_ok=True)
         if init is not None:
             self.call(init, args, kwargs, node)
@@ -434,6 +459,55 @@ class Interp:
                 raise PyRaise("TypeError", ("%s() takes no arguments" % cls.name,), node)
             o.attrs["args"] = tuple(args)
         return o
+
+    # ---- typing.NamedTuple classes and @dataclass classes: the constructor is synthesised from the annotated fields
+    def _record_kind(self, cls):
+        for c in cls.mro():
+            if "NamedTuple" in c.base_names:
+                return "namedtuple"
+            for d in c.node.decorator_list:
+                t = ast.unparse(d.func if isinstance(d, ast.Call) else d)
+                if t.split(".")[-1] == "dataclass":
+                    return "dataclass"
+        return None
+
+    def _record_fields(self, cls):
+        fields = []
+        for c in reversed(cls.mro()):
+            for st in c.node.body:
+                if isinstance(st, ast.AnnAssign) and isinstance(st.target, ast.Name):
+                    if "ClassVar" in ast.unparse(st.annotation):
+                        continue
+                    fields = [f for f in fields if f[0] != st.target.id]
+                    fields.append((st.target.id, st.value, c))
+        return fields
+
+    def _record_init(self, o, cls, kind, args, kwargs, node):
+        fields = self._record_fields(cls)
+        names = [f[0] for f in fields]
+        if len(args) > len(names):
+            raise PyRaise("TypeError", ("%s() takes %d fields" % (cls.name, len(names)),), node, origin="eval")
+        vals = dict(zip(names, args))
+        for k, v in kwargs.items():
+            if k not in names or k in vals:
+                raise PyRaise("TypeError", ("%s() got an unexpected field %s" % (cls.name, k),), node, origin="eval")
+            vals[k] = v
+        for name, default, c in fields:
+            if name not in vals:
+                if default is None:
+                    raise PyRaise("TypeError", ("%s() missing field %s" % (cls.name, name),), node, origin="eval")
+                dv = self.eval(default, self.module_env(c.module))
+                if isinstance(dv, _FieldSpec):
+                    dv = self.call(dv.factory, ()) if dv.factory is not None else dv.default
+                vals[name] = dv
+        for name in names:
+            o.attrs[name] = vals[name]
+        if kind == "namedtuple":
+            o.tuple_fields = tuple(names)
+        else:
+            post = self.getattr(o, "__post_init__", node, missing_ok=True)
+            if post is not None:
+                self.call(post, (), {}, node)
 
     def _override(self, cls, name):
         for c in cls.mro():
@@ -463,7 +537,13 @@ class Interp:
                 if "staticmethod" in decos:
                     return True, cl
                 if "classmethod" in decos:
-                    return True, Bound(cl, ClassRef(cls))
+                    return True, Bound(cl, ClassRef(recv.cls if isinstance(recv, Obj) and recv.cls is not None else cls))
+                # caching decorators are transparent on the functions of the fragment (their results do not depend on state
+                # the model changes between calls)
+                transparent = [d for d in decos if d.split("(")[0].split(".")[-1] in ("lru_cache", "cache", "wraps", "final", "override", "abstractmethod")]
+                decos = [d for d in decos if d not in transparent]
+                if any(d.split(".")[-1] == "cached_property" for d in decos):
+                    decos = ["property"]
                 if "property" in decos:
                     if recv is None:
                         raise NotModelled("property %s on class" % name)
@@ -496,9 +576,22 @@ class Interp:
                 ok, r = self._class_lookup(v.cls, v, name)
                 if ok:
                     return r
+            if v.tuple_fields is not None:
+                if name == "_fields":
+                    return v.tuple_fields
+                if name == "_asdict":
+                    return _Builtin(lambda it, _o=v: {f: _o.attrs[f] for f in _o.tuple_fields}, "_asdict")
+                if name == "_replace":
+                    def _replace(it, _o=v, **kw):
+                        n = Obj(_o.cls, **dict(_o.attrs, **kw))
+                        n.tuple_fields = _o.tuple_fields
+                        return n
+                    return _Builtin(_replace, "_replace")
+                if name == "_make":
+                    return _Builtin(lambda it, seq, _c=v.cls: it.instantiate(_c, list(it.iterate(seq)), {}), "_make")
             if missing_ok:
                 return None
-            raise PyRaise("AttributeError", ("%r has no attribute %s" % (v, name),), node)
+            raise PyRaise("AttributeError", ("%r has no attribute %s" % (v, name),), node, origin="eval")
         if isinstance(v, SuperProxy):
             ok, r = self._class_lookup(v.recv.cls, v.recv, name, start_after=v.after)
             if ok:
@@ -510,7 +603,14 @@ class Interp:
             ok, r = self._class_lookup(v.cls, None, name)
             if ok:
                 return r
-            raise PyRaise("AttributeError", ("class %s has no attribute %s" % (v.cls.name, name),), node)
+            if self._record_kind(v.cls) == "namedtuple":
+                if name == "_make":
+                    return _Builtin(lambda it, seq, _c=v.cls: it.instantiate(_c, list(it.iterate(seq)), {}), "_make")
+                if name == "_fields":
+                    return tuple(f[0] for f in self._record_fields(v.cls))
+            if name == "__name__":
+                return v.cls.name
+            raise PyRaise("AttributeError", ("class %s has no attribute %s" % (v.cls.name, name),), node, origin="eval")
         if isinstance(v, ModRef):
             return self.global_lookup(v.module, name, node)
         if isinstance(v, ExtRef):
@@ -537,7 +637,7 @@ class Interp:
             except AttributeError:
                 if missing_ok:
                     return None
-                raise PyRaise("AttributeError", ("%s has no attribute %s" % (type(v).__name__, name),), node)
+                raise PyRaise("AttributeError", ("%s has no attribute %s" % (type(v).__name__, name),), node, origin="eval")
         raise NotModelled("attribute %s of %r" % (name, type(v).__name__))
 
     def setattr(self, v, name, val, node=None):
@@ -614,7 +714,7 @@ class Interp:
                     self.assign(x, Opaque("%s[%d]" % (v.name, i)), env)
                 return
             try:
-                vals = list(v)
+                vals = list(v) if not isinstance(v, (Obj, _Iter)) else list(self.iterate(v, t))
             except TypeError:
                 raise PyRaise("TypeError", ("cannot unpack",), t)
             if len(vals) != len(t.elts):
@@ -671,13 +771,13 @@ class Interp:
             raise cur
         v = self.eval(s.exc, env)
         if isinstance(v, ExcClass):
-            raise PyRaise(v.name, (), s)
+            raise PyRaise(v.name, (), s, origin="raise")
         if isinstance(v, ExcV):
-            raise PyRaise(v.name, v.args, s)
+            raise PyRaise(v.name, v.args, s, origin="raise")
         if isinstance(v, ClassRef):
-            raise PyRaise(v.cls.name, (), s, obj=v)
+            raise PyRaise(v.cls.name, (), s, obj=v, origin="raise")
         if isinstance(v, Obj) and v.cls is not None:
-            raise PyRaise(v.cls.name, v.attrs.get("args", ()), s, obj=v)
+            raise PyRaise(v.cls.name, v.attrs.get("args", ()), s, obj=v, origin="raise")
         raise NotModelled("raise of %r" % (v,))
 
     def exc_matches(self, exc: PyRaise, hname):
@@ -748,7 +848,7 @@ class Interp:
 
     def _s_Assert(self, s, env):
         if not self.truth(self.eval(s.test, env), s.test):
-            raise PyRaise("AssertionError", (), s)
+            raise PyRaise("AssertionError", (), s, origin="raise")
 
     def _s_Delete(self, s, env):
         for t in s.targets:
@@ -794,6 +894,8 @@ class Interp:
             return list(v)
         if isinstance(v, (type({}.items()), type({}.keys()), type({}.values()), type(iter([])), map, filter, zip, enumerate, reversed)):
             return list(v)
+        if isinstance(v, Obj) and v.tuple_fields is not None:
+            return list(v.as_tuple())
         if isinstance(v, Obj) and v.cls is not None:
             ok, r = self._class_lookup(v.cls, v, "__iter__")
             if ok:
@@ -852,6 +954,11 @@ class Interp:
             ok, r = self._class_lookup(c.cls, c, "__getitem__")
             if ok:
                 return self.call(r, (k,), {}, e)
+            if c.tuple_fields is not None:
+                try:
+                    return c.as_tuple()[k]
+                except _PY_ERRORS as ex:
+                    raise PyRaise(type(ex).__name__, ex.args, e)
             raise PyRaise("TypeError", ("not subscriptable",), e)
         if isinstance(c, _SAFE_TYPES + (PyModel,)) and hasattr(c, "__getitem__"):
             try:
@@ -961,6 +1068,12 @@ class Interp:
         raise NotModelled("comparison operator")
 
     def _eq(self, a, b):
+        if isinstance(a, Obj) and a.tuple_fields is not None:
+            a = a.as_tuple()
+        if isinstance(b, Obj) and b.tuple_fields is not None:
+            b = b.as_tuple()
+        if isinstance(a, tuple) and isinstance(b, tuple):
+            return len(a) == len(b) and all(self._eq(x, y) for x, y in zip(a, b))
         if isinstance(a, Obj) and a.cls is not None:
             ok, r = self._class_lookup(a.cls, a, "__eq__")
             if ok:
@@ -1120,8 +1233,22 @@ class _Sentinel(PyModel):
     """object(): a unique value"""
 
 
+def _issubclass(c, k):
+    ks = k if isinstance(k, tuple) else (k,)
+    if not isinstance(c, ClassRef) or not all(isinstance(x, ClassRef) for x in ks):
+        raise NotModelled("issubclass on non-repository classes")
+    return any(any(m is x.cls for m in c.cls.mro()) for x in ks)
+
+
 def _type_of(x):
     raise NotModelled("type() of %r" % type(x).__name__)
+
+
+class _FieldSpec:
+    """dataclasses.field(default=..., default_factory=...)"""
+
+    def __init__(self, default=None, default_factory=None, **kw):
+        self.default, self.factory = default, default_factory
 
 
 class _Builtin:
@@ -1173,6 +1300,8 @@ def _b_str(it, x=""):
 
 
 def _b_len(it, x):
+    if isinstance(x, Obj) and x.tuple_fields is not None:
+        return len(x.tuple_fields)
     if isinstance(x, Obj):
         ok, r = it._class_lookup(x.cls, x, "__len__")
         if ok:
@@ -1297,6 +1426,7 @@ _BUILTINS = {
     "zip": _Builtin(lambda it, *a: [tuple(r) for r in zip(*[it.iterate(x) for x in a])], "zip"),
     "enumerate": _Builtin(lambda it, x, start=0: list(enumerate(it.iterate(x), start)), "enumerate"),
     "reversed": _Builtin(lambda it, x: list(reversed(it.iterate(x))), "reversed"),
+    "issubclass": _Builtin(lambda it, c, k: _issubclass(c, k), "issubclass"),
     "object": _Builtin(lambda it: _Sentinel(), "object"),
     "callable": _Builtin(lambda it, x: isinstance(x, (Closure, Bound, NativeBound, ClassRef, _Builtin)) or callable(x), "callable"),
     "divmod": _Builtin(lambda it, a, b: divmod(a, b), "divmod"),
@@ -1571,6 +1701,28 @@ def _default_natives(it):
         return _Getter(lambda *b, **kk: it.call(f, a + b, dict(k, **kk)))
 
     import operator as _op
+    import struct as _st
+
+    def _serr(f):
+        def g(*a):
+            try:
+                return f(*a)
+            except _st.error as e:
+                raise PyRaise("struct.error", (str(e),))
+        g._model_native = True
+        return g
+
+    class _Struct(PyModel):
+        def __init__(self, fmt):
+            if not isinstance(fmt, (str, bytes)):
+                raise NotModelled("struct.Struct of a non-literal format")
+            self._s = _st.Struct(fmt)
+            self.size = self._s.size
+            self.format = fmt
+            self.unpack = _serr(self._s.unpack)
+            self.unpack_from = _serr(self._s.unpack_from)
+            self.pack = _serr(self._s.pack)
+            self.iter_unpack = _serr(lambda b: _Iter(list(self._s.iter_unpack(b))))
 
     def reduce(f, seq, *init):
         import functools
@@ -1584,6 +1736,9 @@ def _default_natives(it):
         "itertools.accumulate": accumulate, "itertools.pairwise": pairwise, "itertools.product": product,
         "operator.attrgetter": attrgetter, "operator.itemgetter": itemgetter, "operator.methodcaller": methodcaller,
         "functools.partial": partial,
+        "struct.Struct": _Struct, "struct.unpack": _serr(_st.unpack), "struct.unpack_from": _serr(_st.unpack_from),
+        "struct.pack": _serr(_st.pack), "struct.calcsize": _st.calcsize,
+        "dataclasses.field": _FieldSpec,
         "operator.not_": lambda x: not it.truth(x), "operator.truth": lambda x: it.truth(x),
         "operator.is_": lambda a, b: _is(a, b), "operator.is_not": lambda a, b: not _is(a, b),
         "operator.eq": _op.eq, "operator.ne": _op.ne, "operator.lt": _op.lt, "operator.le": _op.le, "operator.gt": _op.gt, "operator.ge": _op.ge,
